@@ -91,6 +91,9 @@ pub fn crafted_checksum_campaign(env: &mut Env, shard: u32, shards: u32) -> Resu
             let Some(frame) = frame else {
                 return Err(CaseError::Engine("crafted record produced no frame".to_string()));
             };
+            // records of the other queue right behind the crafted frame, in the same session
+            exec.step_concrete(COp::Append { q: QName::plain("b"), pos: None, batch: vec![Pay { len: 25, seed: 6, style: 0 }] })?;
+            let before_first = exec.driver.observe().map_err(|_| CaseError::Skip("live-state-unobservable".to_string()))?;
             exec.driver.close()?;
             let on_disk = std::fs::read(dir.join(&frame.name)).map_err(|err| CaseError::Engine(format!("read wal: {err}")))?;
             let header = &on_disk[frame.off as usize..frame.off as usize + 7];
@@ -98,16 +101,24 @@ pub fn crafted_checksum_campaign(env: &mut Env, shard: u32, shards: u32) -> Resu
                 env.class("crafted-crc:layout-skipped");
                 continue;
             }
-            // more records of the other queue, then a restart
+            // first restart: the crafted record and what was appended behind it must all come back
+            let what = format!("a record of queue \"a\" whose frame header carries the checksum {target:#010x} (crafted payload), then records of queue \"b\", then a restart");
             let step = exec.step_concrete(COp::Restart { policy: None })?;
-            exec.usable_or_skip(&step)?;
+            env.evals(1);
+            if step.real.outcome != Outcome::Restarted {
+                return Err(exec.failure(format!("{what}: re-opening failed: {:?}", step.real.outcome), "crafted-checksum-reopen-failed", json!({"crafted_crc": cell})));
+            }
+            let after_first = exec.driver.observe().map_err(|msg| exec.failure(format!("{what}: {msg}"), "observe-failed-after-restart", json!({"crafted_crc": cell})))?;
+            if let Some(diff) = crate::model::diff_states(&before_first, &after_first) {
+                return Err(exec.failure(format!("{what}: the state after re-opening differs from the state before the drop: {diff}"), "crafted-checksum-changes-state", json!({"crafted_crc": cell})));
+            }
+            // more records of the other queue, then a second restart
             exec.step_concrete(COp::Append { q: QName::plain("b"), pos: None, batch: vec![Pay { len: 30, seed: 3, style: 0 }] })?;
             exec.step_concrete(COp::Append { q: QName::plain("b"), pos: None, batch: vec![Pay { len: 40, seed: 4, style: 0 }] })?;
             let before = exec.driver.observe().map_err(|_| CaseError::Skip("live-state-unobservable".to_string()))?;
             let step = exec.step_concrete(COp::Restart { policy: None })?;
             env.evals(1);
             env.class("crafted-crc:restart-checked");
-            let what = format!("a record of queue \"a\" whose frame header carries the checksum {target:#010x} (crafted payload), then records of queue \"b\", then a restart");
             if step.real.outcome != Outcome::Restarted {
                 return Err(exec.failure(format!("{what}: re-opening failed: {:?}", step.real.outcome), "crafted-checksum-reopen-failed", json!({"crafted_crc": cell})));
             }
